@@ -612,5 +612,7 @@ def r6_collection(chk):
         ok = isinstance(g.elt, ast.Tuple) and norm(g.elt.elts[0]) == tk and norm(g.elt.elts[1]) == f"self._value_decoder({tv})"
     chk.decide(ok, "C01.R6", f"{it.key}:decode", it.where(), "(k, decoder(v)) for k, v in backend.items()",
                "Collection.items does not yield (key, decoder(value))")
-    ok = "self.__getitem__" in norm(vs.node) or has_call(vs.node, {"self._value_decoder"})
+    # through __getitem__ (as a bound method, or as `self[key]` for keys of self.keys()), or through the decoder itself
+    subs = [x for x in ast.walk(vs.node) if isinstance(x, ast.Subscript) and norm(x.value) == "self" and isinstance(x.ctx, ast.Load)]
+    ok = "self.__getitem__" in norm(vs.node) or has_call(vs.node, {"self._value_decoder"}) or (bool(subs) and "self.keys()" in norm(vs.node))
     chk.decide(ok, "C01.R6", f"{vs.key}:decode", vs.where(), "values go through __getitem__", "Collection.values bypasses the decoder")
